@@ -297,7 +297,7 @@ def check_c15(out, tier):
         for r in runs:
             per = {}
             for d in r["diffs"]:
-                if d["tag"].endswith(".D10") or d["tag"] in checks.UNATTRIBUTED:
+                if d["tag"].endswith((".D10", ".D13")) or d["tag"] in checks.UNATTRIBUTED:
                     continue
                 others = [o for o in runs if o is not r and observable(o, d["tag"]) and o["checked"] >= d["l"]]
                 if others and any((d["l"], d["tag"]) not in keys[id(o)] for o in others):
